@@ -281,6 +281,29 @@ for _k, _v in EXTRA.items():
     CLAIMED[_k]["text"] = CLAIMED[_k]["text"] + _v
 CLAIMED["C19"]["note"] = CLAIMED["C19"]["note"].replace("aso/aeif array algebra is covered by the stand-in only (grids with >= 1 point).", "aso/aeif are proved for one small shape only (2x2x2); other shapes and the float32 path are covered by the stand-in (grids with >= 1 point).")
 
+# ---- additions after rounds 3 and 4 (see DESIGN 10.3, 10.4)
+EXTRA2 = {
+ "C01": " Round trips also cover a single atom and two parallel bonds between the same atoms; the codec version is chosen from the file header only when the file is NOT about to be overwritten (overwrite recreates it in the current format).",
+ "C04": " UkvCollectionBackend(path): the existence test and the (re)initialisation of the file happen inside one write-lock bracket, a missing file is created, an existing one truncated only on overwrite; C02's map_blocks and clean-reopen units are part of this check (no record lost, including a last record with an empty value).",
+ "C05": " extend_bonds accepts one-shot iterators; an explicit charge=None still yields a numeric row; own atoms whose parent pointer was re-pointed elsewhere are not adopted a second time.",
+ "C06": " A Conformer (view) can be pickled / deep-copied into a conformer of an independent copy of its ensemble; Molecule.concatenate is covered like Structure.concatenate.",
+ "C07": " A molecule read from a foreign mol2 text (NO_CHARGES / BIOPOLYMER / GASTEIGER header) and then given charges writes text that reads back with those charges and is a fixed point.",
+ "C08": " A molecule without atoms round-trips; dummy-typed atoms keep their element; units are honoured also when a file NAME is given (load / load_all) and by the ensemble loaders (loads_/load_, with the name override); float32-allocated coordinate blocks are detected (stores into them are not provably exact).",
+ "C09": " For cdxml, load without a key parses the first drawn fragment under the caller's name and with a key the labelled one; a second load reads the source again (no state between calls); any object with write() is a valid dump target; the ensemble loaders' name/unit clauses (shared with C08) are part of this check.",
+ "C10": " The atom-id token of mol2 atom records may be replaced by any other id (records are positional): same molecule or an exception; attribute records are content once their section header is present.",
+ "C11": " rotate_dihedral also with the central bond stored in the reverse orientation; a Substructure created before a del_atom on its parent still moves exactly its own atoms; each alignment fit sees the mapped atoms in the caller's order; a restructured special branch of rotation_matrix_from_vectors is reported.",
+ "C12": " Attachment bonds stored in either orientation; the rotation contract is applied to (B's attachment direction, minus A's), i.e. B is attached the right way round.",
+ "C13": " The resolution of a label does not depend on which labels were looked up before.",
+ "C14": " After append/extend no array buffer is shared with the structures that were appended.",
+ "C15": " Adjacency queries with the atom given by index; Bond.order of every bond type; is_bond_in_ring through a model of networkx.bridges; bonds stored in either orientation; ConformerEnsemble.get_substr_indices like Connectivity's.",
+ "C16": " The C05 append_bond units and C15's Bond.order table are part of this check (shared units); mean_plane does not modify its argument.",
+ "C17": " The driver class is a subclass of the real DriverBase (class-level declarations visible); a driver reconfigured between two uses is honoured; run_local: the job's environment wins over the runner's own, a command killed by its time limit is a failed command.",
+ "C18": " strict_hash=False relaxes only the hash comparison (a failed run is never a result); process() receives every loaded output record in order; DirCollectionBackend maps each key to its own file dir/key+ext (different keys never share a file).",
+ "C19": " (aeif: a nearest-atom lookup with any other cut-off than the largest radius is reported.)",
+}
+for _k, _v in EXTRA2.items():
+    CLAIMED[_k]["text"] = CLAIMED[_k]["text"] + _v
+
 NOT_APPLICABLE = {
 }
 
